@@ -526,6 +526,18 @@ impl JoinPlanner {
             return ir;
         }
 
+        // The join tree is rebuilt by column name. A leaf that carries one variable
+        // in two columns (an atom such as e(X, X)) has two columns of one name, and
+        // keys and projections looked up by name would land on the wrong one:
+        // leave such a tree in its original order.
+        if graph.nodes.iter().any(|node| {
+            let schema = node.ir_node.output_schema();
+            let distinct: HashSet<&String> = schema.iter().collect();
+            distinct.len() != schema.len()
+        }) {
+            return ir;
+        }
+
         // Extract head variables from the top-level operation above the joins.
         // These are the variables that survive to the final result, allowing
         // compute_tree_width to account for early projection.
